@@ -4,6 +4,8 @@ import (
 	"context"
 	"errors"
 	"net"
+	"net/http"
+	"net/url"
 	"strings"
 
 	"github.com/c2FmZQ/ech/dns"
@@ -196,4 +198,99 @@ func verifC14Zone() {
 		prev = h.Priority
 	}
 	vReach("resolved")
+}
+
+// verifC12Resolve (C12, third clause): a DoH response body that decodes - one
+// answer RR with symbolic class, a type drawn from {A, AAAA, CNAME, HTTPS, NS,
+// TXT, unknown} and symbolic RDATA, owner = the queried name - is consumed by
+// Resolver.Resolve without panicking on any of its type assertions.
+func verifC12Resolve() {
+	types := []uint16{1, 28, 5, 65, 2, 16, 999}
+	typ := types[vInt(0, len(types)-1)]
+	rd := vBytes(vInt(0, 3+2*vTier()))
+	cls := vBytes(2)
+	ttl := vBytes(4)
+	answered := false
+	dns.VerifHook_DoH = func(ctx context.Context, msg *dns.Message, URL string) (*dns.Message, error) {
+		d, err := dns.DecodeMessage(msg.Bytes())
+		if err != nil || len(d.Question) != 1 {
+			return nil, errVTransport
+		}
+		// the symbolic record is served once: to the query of its own type, or (for
+		// types the resolver never asks for) to the first query
+		mine := d.Question[0].Type == typ || (typ != 1 && typ != 28 && typ != 65)
+		if answered || !mine {
+			return &dns.Message{QR: 1}, nil
+		}
+		answered = true
+		// header (1 question, 1 answer) + the question as asked + one answer with a pointer to the question name
+		q := msg.Bytes()[12:]
+		qlen := 0
+		for q[qlen] != 0 {
+			qlen += 1 + int(q[qlen])
+		}
+		qlen += 5
+		raw := vCat([]byte{0, 0, 0x81, 0x80, 0, 1, 0, 1, 0, 0, 0, 0}, q[:qlen],
+			[]byte{0xc0, 0x0c, byte(typ >> 8), byte(typ)}, cls, ttl, vU16(len(rd)), rd)
+		return dns.DecodeMessage(raw)
+	}
+	r := &Resolver{}
+	_, err := r.Resolve(context.Background(), "n.example")
+	vObserve(err == nil)
+	vReach("resolved-or-error")
+}
+
+// verifC19PoolKeys (C19, origin isolation): the connection-pool key that RoundTrip
+// derives (the rewritten URL.Host) is different for different scheme/host/port
+// origins, over a list of adversarially similar origins.
+func verifC19PoolKeys() {
+	origins := []string{
+		"https://a.example/", "https://a.example:443/", "https://a.example:8443/", "https://a.example:80/",
+		"http://a.example/", "http://a.example:80/", "http://a.example:443/", "https://b.example/",
+		"https://a.example._/", "https://_443._https.a.example/", "https://a.example.:443/", "https://xn--a.example/",
+	}
+	// effective origin: scheme after the documented upgrade is not applied here (no HTTPS records): http stays http
+	dns.VerifHook_DoH = func(ctx context.Context, msg *dns.Message, URL string) (*dns.Message, error) {
+		return &dns.Message{QR: 1}, nil
+	}
+	i := vInt(0, len(origins)-1)
+	j := vInt(0, len(origins)-1)
+	vAssume(i < j)
+	key := func(raw string) (string, string) {
+		t := NewTransport()
+		t.Resolver = &Resolver{}
+		h3 := &vH3{}
+		t.HTTP3Transport = h3
+		var got string
+		t.HTTPTransport.DialTLSContext = func(ctx context.Context, network, addr string) (net.Conn, error) {
+			got = "tls " + addr
+			return nil, errVTransport
+		}
+		t.HTTPTransport.DialContext = func(ctx context.Context, network, addr string) (net.Conn, error) {
+			got = "tcp " + addr
+			return nil, errVTransport
+		}
+		u, err := url.Parse(raw)
+		vAssert(err == nil, "origin parses")
+		req := (&http.Request{Method: "GET", URL: u, Header: http.Header{}}).WithContext(context.Background())
+		_, _ = t.RoundTrip(req)
+		port := u.Port()
+		if port == "" {
+			if u.Scheme == "http" {
+				port = "80"
+			} else {
+				port = "443"
+			}
+		}
+		return got, u.Scheme + "|" + u.Hostname() + "|" + port
+	}
+	k1, o1 := key(origins[i])
+	k2, o2 := key(origins[j])
+	vAssert(k1 != "" && k2 != "", "the transport was asked to dial")
+	if o1 != o2 {
+		vAssert(k1 != k2, "different scheme/host/port origins never share a pool key")
+	} else {
+		vAssert(k1 == k2, "the same origin maps to the same pool key")
+	}
+	vReach("keys")
 }
